@@ -45,6 +45,7 @@ def model_loop(ctx, thorough):
             if rn.violated not in ("C06_OneTerminal", "C06_OneFlag"):
                 raise MachineryError(f"the non-atomic variant of the pair model does not exhibit the outcome race ({rn.violated!r})")
             ctx.cov["non_atomic_variant_refuted_by"] = rn.violated + ": " + " -> ".join(l for l, _ in rn.trace[-7:])
+            two_threads(ctx, thorough, extra)
             return
         last = r.trace[-1][1]["nd"]
         labels = [l for l, _ in r.trace]
@@ -80,6 +81,41 @@ def model_loop(ctx, thorough):
         else:
             ctx.drifted(f"pair model violates {r.violated} (model fired {model_fired}) but the real {role} node fired {real_fired} / diverged={bool(rep.diverged)}; behaviour tail {labels[-10:]}")
         return
+
+
+def two_threads(ctx, thorough, extra):
+    """The pair model with a second user thread on the requestor (release / abort while the first thread releases, aborts
+    or echoes).  The stepped replay drives one user thread, so these counterexamples are not replayed: a crash signature
+    TLC finds here must be one the scenario runs list as a known finding by its event (C06-provider-dies-on-EvtN), and is
+    then added to KnownCrash so that the search goes on to the one-outcome / agreement / leak invariants."""
+    import json
+    import os
+    from common import VERIF
+    known_events = {k["signature"]["cause_event"] for k in json.load(open(os.path.join(VERIF, "known_findings.json")))["findings"]
+                    if k["property"] == "C06" and k["status"] == "open" and "cause_event" in k["signature"]}
+    found = []
+    extra2 = list(extra)
+    for _ in range(10):
+        r = pair_model(ctx, thorough, extra2, second=("release", "abort") if thorough else ("release",))
+        if not r.violated:
+            break
+        last = r.trace[-1][1]["nd"]
+        labels = [l for l, _ in r.trace]
+        if r.violated == "C05_DefinedEventsOnly":
+            node = next(n for n in ("R", "A") if last[n]["crash"])
+            sig = tuple(last[node]["crash"])
+            if f"Evt{sig[1]}" in known_events:
+                found.append(f"{sig[0]} Evt{sig[1]}@Sta{sig[2]}")
+            else:
+                ctx.violation({"role": sig[0], "event": sig[1], "state": sig[2], "predicted": True, "where": "pair model with two user threads"},
+                              f"pair model with a second user thread on the requestor: provider of the {sig[0]} processes Evt{sig[1]} in Sta{sig[2]} (undefined); behaviour: {' -> '.join(labels)}",
+                              {"behaviour": labels})
+            extra2.append(sig)
+            continue
+        ctx.violation({"clause": r.violated, "where": "pair model with two user threads"},
+                      f"pair model with a second user thread on the requestor violates {r.violated}; behaviour: {' -> '.join(labels)}", {"behaviour": labels})
+        break
+    ctx.cov["two_user_threads_crash_signatures_predicted"] = found
 
 
 def run(ctx):
